@@ -26,7 +26,7 @@ Proj(es) == [i \in DOMAIN es |-> <<es[i].k, es[i].kl, es[i].v, es[i].vm, es[i].e
 ObsI == ObsP /\ Proj(entries') = Ev.st
 
 (* P: each vanished expired entry either was dropped as expired (in D) or was purged as part of the LRU suffix *)
-ActP == \E D \in SUBSET DCand :
+ActP == Ev.e \in {"Get", "Del", "Add", "SetLimit"} /\ \E D \in SUBSET DCand :
           \/ Ev.e = "Get" /\ GetWith(D, Ev.k, Ev.ret)
           \/ Ev.e = "Del" /\ DelWith(D, Ev.k)
           \/ Ev.e = "Add" /\ AddWith(D, Ev.k \in ObsKeys, Ev.k, Ev.kl, Ev.v, Ev.vm, Ev.ttl, Ev.ret)
